@@ -466,6 +466,7 @@ func r10_5(c *Ctx, rule string) {
 		h2 := ex2.Run()
 		c.R.Check(len(h2) == 0 && !ex2.Exhausted, rule, base+"/ancestor-once", c.pos(parentReport), "an ancestor already marked is not reported again", "an ancestor already marked calledFn is reported again")
 	}
+	c.ObNoStaleElementStores(rule, lit, 2, "pending-ancestor record")
 	// the entry's own directory record is marked too
 	own := 0
 	eng.Instrs(lit, func(in ssa.Instruction) {
